@@ -36,6 +36,14 @@ CHECKS = {
              "exactly the model's filter result, each object once, never more than asked per call.",
         note="Fixed population (16 objects on A, 4 on B) and template menu (all singles, pairs of a reduced menu, selected triples); model attribute values "
              "are read once through C_GetAttributeValue; history depth 2 (quick) / 3 (thorough)."),
+    "C09": dict(
+        category="model_checking", design_ref="DESIGN.md 3/C09",
+        technique="exhaustive enumeration of single-point breakages of every valid object-management/generate/unwrap/derive call on the real library, each in its own process snapshot, with a differential before/after oracle over API view, handle validity and raw token directory",
+        text="~8000 (quick) failing-call candidates from three start states are executed one per snapshot; whenever the call returns an error the complete "
+             "observation (objects and all attributes as seen by four sessions, validity of known handles, file names/modes/contents of the token directory "
+             "without generation counters) must be identical to the one taken before the call. No expected error codes are used.",
+        note="Breakage menu: bad entry at first/middle/last position (10 kinds), every entry dropped, oversize template, RO/public/SO session, bad mechanism "
+             "parameters, every truncation/byte corruption of wrapped blobs, stale/foreign handles; file store; fs-fault injection is not part of this check yet."),
 }
 
 NOT_YET = "check under construction in this session; not claimed yet (DESIGN.md Appendix D gives the build order)"
@@ -64,7 +72,7 @@ def main():
         "setup_cmd": "python3 tools/build_sut.py ossl-asan ossl-plain",
         "hooks": {"guard": "SOFTHSM_VERIF", "enable": "tools/build_sut.py passes -DSOFTHSM_VERIF to every variant it compiles from /repo's working tree",
                   "baseline_off_cmd": "cmake --build /repo/_build && ctest --test-dir /repo/_build -j8 --timeout 900",
-                  "source_commits": [], "add_only": True},
+                  "source_commits": [], "fix_commits": ["6bd3dce", "e87af21", "bea9994"], "add_only": True},
         "engines": [
             {"name": "p11sh", "path": "engine/p11sh", "serves_properties": sorted(CHECKS), "kind_free_text": "PKCS#11 shell linked statically against the SUT; SNAP/BACK process snapshots; guard pages + canaries around every buffer"},
             {"name": "p11mc", "path": "py/p11mc", "serves_properties": sorted(CHECKS), "kind_free_text": "explicit-state explorer (level-synchronous BFS with replay-to-state, unmerged DFS), reference models, evidence/findings glue"},
